@@ -12,7 +12,8 @@
    wrapped tree vs [validate]/[substitute] on the SCustom term). *)
 Require Import D42.Prelude D42.Value D42.Regex D42.Schema D42.Validate D42.Conforms
                D42.FromNative D42.Substitute D42.Custom.
-Require Import D42P.CustomSpec.
+Require Import D42.PyRandom D42.RegexGen D42.Generate.
+Require Import D42P.CustomSpec D42P.CustomGen.
 
 (* Validation, both validators, every path: the same errors in the same order - same kind
    and parameters, same path, same actual value; the alternatives carried by a "none of the
@@ -95,3 +96,10 @@ Example ex_subst :
       (KStr [99], Some (SAlias (Some [65]) (SCustom (SBool None))), true) ]))) /\
   substitute ex_wrapped (VDict [(KStr [97], VList [VInt 0%Z])]) = Err SubstErr.
 Proof. vm_compute. auto. Qed.
+
+(* Generation: for every world and every tape the wrapped tree generates the same value and
+   leaves the same tape as the tree without wrappers (so "generation yields conforming values"
+   transfers from the built-in tree, C01). *)
+Theorem erase_gen : forall w s t, gen w (erase s) t = gen w s t.
+Proof. intros w s t. exact (erase_gen_lemma w s t). Qed.
+Print Assumptions erase_gen.
